@@ -37,8 +37,10 @@ import (
 
 	"github.com/lestrrat-go/jwx/v2/jwa"
 	"github.com/sirupsen/logrus"
+	"github.com/nuts-foundation/go-did/did"
 	"github.com/nuts-foundation/go-did/vc"
 	"github.com/nuts-foundation/nuts-node/auth"
+	iamclient "github.com/nuts-foundation/nuts-node/auth/client/iam"
 	"github.com/nuts-foundation/nuts-node/auth/oauth"
 	"github.com/nuts-foundation/nuts-node/core"
 	"github.com/nuts-foundation/nuts-node/crypto/dpop"
@@ -159,6 +161,8 @@ type c02World struct {
 	tokReal  map[string]string
 	codeNames map[string]string
 	codeReal  map[string]string
+	nonceNames map[string]string
+	nonceReal  map[string]string
 	dpopKeys []*ecdsa.PrivateKey
 	dpopJkt  map[string]string // real thumbprint -> jkt#i
 	defs     map[int]pe.PresentationDefinition
@@ -172,7 +176,7 @@ const c02PublicURL = "https://as.example"
 func c02NewWorld(t *testing.T, cfg c02Op) *c02World {
 	ctrl := gomock.NewController(t)
 	w := &c02World{t: t, ctrl: ctrl, verdicts: map[string]bool{}, tokNames: map[string]string{}, tokReal: map[string]string{},
-		codeNames: map[string]string{}, codeReal: map[string]string{}, dpopJkt: map[string]string{}, defs: map[int]pe.PresentationDefinition{}}
+		codeNames: map[string]string{}, codeReal: map[string]string{}, nonceNames: map[string]string{}, nonceReal: map[string]string{}, dpopJkt: map[string]string{}, defs: map[int]pe.PresentationDefinition{}}
 	w.db = storage.NewVerifSessionDB()
 	engine := storage.NewMockEngine(ctrl)
 	engine.EXPECT().GetSessionDatabase().Return(w.db).AnyTimes()
@@ -231,7 +235,18 @@ func c02NewWorld(t *testing.T, cfg c02Op) *c02World {
 		w.defs[i] = d
 	}
 	w.policy = cfg.Policy
-	w.w = &Wrapper{auth: authn, subjectManager: sm, vcr: mvcr, storageEngine: engine, policyBackend: pdp}
+	// the "next wallet" leg of the authorization-code flow (nextOpenID4VPFlow): the subject's DIDs, the client's OpenID
+	// configuration, and the real (unsigned) request-object builder
+	sm.EXPECT().ListDIDs(gomock.Any(), gomock.Any()).DoAndReturn(func(_ context.Context, s string) ([]did.DID, error) {
+		return []did.DID{did.MustParseDID("did:web:as.example:iam:" + s)}, nil
+	}).AnyTimes()
+	ic := iamclient.NewMockClient(ctrl)
+	ic.EXPECT().OpenIDConfiguration(gomock.Any(), gomock.Any()).DoAndReturn(func(_ context.Context, issuer string) (*oauth.OpenIDConfiguration, error) {
+		return &oauth.OpenIDConfiguration{Issuer: issuer, Metadata: oauth.EntityStatementMetadata{OpenIDProvider: oauth.AuthorizationServerMetadata{
+			Issuer: issuer, AuthorizationEndpoint: issuer + "/authorize", ClientIdSchemesSupported: clientIdSchemesSupported}}}, nil
+	}).AnyTimes()
+	authn.EXPECT().IAMClient().Return(ic).AnyTimes()
+	w.w = &Wrapper{auth: authn, subjectManager: sm, vcr: mvcr, storageEngine: engine, policyBackend: pdp, jar: jar{auth: authn}}
 	for i := 0; i < 3; i++ {
 		k, _ := ecdsa.GenerateKey(elliptic.P256(), crand.Reader)
 		w.dpopKeys = append(w.dpopKeys, k)
@@ -605,7 +620,11 @@ func (w *c02World) execProbe(op *c02Op) string {
 	case "s2snonce":
 		err = w.w.s2sNonceStore().Get(op.Key, new(bool))
 	case "oauthnonce":
-		err = w.w.oauthNonceStore().Get(op.Key, new(string))
+		k := op.Key
+		if r, ok := w.nonceReal[k]; ok {
+			k = r
+		}
+		err = w.w.oauthNonceStore().Get(k, new(string))
 	case "code":
 		err = w.w.oauthCodeStore().Get(w.realCode(op.Key), new(OAuthSession))
 	case "state":
@@ -687,29 +706,26 @@ func (w *c02World) execAuthResp(op *c02Op) string {
 		w.verdicts[v.ID] = v.Verifies
 	}
 	op.Pex = []int{}
-	// PEX verdicts against the definitions required by the session the state refers to
-	if op.State != nil && op.Assertion != nil && op.Submission != nil {
-		var sess OAuthSession
-		if err := w.w.oauthClientStateStore().Get(*op.State, &sess); err == nil && sess.OpenID4VPVerifier != nil {
-			env, e1 := pe.ParseEnvelope([]byte(*op.Assertion))
-			sub, e2 := pe.ParsePresentationSubmission([]byte(*op.Submission))
-			if e1 == nil && e2 == nil {
-				for key, d := range w.defs {
-					for _, req := range sess.OpenID4VPVerifier.RequiredPresentationDefinitions {
-						if req.Id == d.Id {
-							if _, err := sub.Validate(*env, d); err == nil {
-								op.Pex = append(op.Pex, key)
-							}
-						}
-					}
+	// PEX verdicts of this submission + envelope against every definition of the world (the model looks up the one it needs)
+	if op.Assertion != nil && op.Submission != nil {
+		env, e1 := pe.ParseEnvelope([]byte(*op.Assertion))
+		sub, e2 := pe.ParsePresentationSubmission([]byte(*op.Submission))
+		if e1 == nil && e2 == nil {
+			for key := 0; key < len(w.defs); key++ {
+				if _, err := sub.Validate(*env, w.defs[key]); err == nil {
+					op.Pex = append(op.Pex, key)
 				}
-				sort.Ints(op.Pex)
 			}
 		}
 	}
 	body := HandleAuthorizeResponseFormdataRequestBody{State: op.State}
-	if op.VpToken {
-		body.VpToken = op.Assertion
+	if op.VpToken && op.Assertion != nil {
+		// server-generated nonces are known to the generator by name only
+		raw := *op.Assertion
+		for name, real := range w.nonceReal {
+			raw = strings.ReplaceAll(raw, `"`+name+`"`, `"`+real+`"`)
+		}
+		body.VpToken = &raw
 	}
 	if op.SubmissionPresent {
 		body.PresentationSubmission = op.Submission
@@ -737,7 +753,19 @@ func (w *c02World) execAuthResp(op *c02Op) string {
 			}
 			return fmt.Sprintf("200 code=%s state=%s", name, u.Query().Get("state"))
 		}
-		return "200 next=?"
+		// another wallet has to present first: the redirect carries the fresh nonce and the definition to fulfil
+		owner := "?"
+		if pd, err := url.Parse(u.Query().Get("presentation_definition_uri")); err == nil {
+			owner = pd.Query().Get("wallet_owner_type")
+		}
+		nonce := u.Query().Get("nonce")
+		name, known := w.nonceNames[nonce]
+		if !known {
+			name = fmt.Sprintf("on#%d", len(w.nonceNames))
+			w.nonceNames[nonce] = name
+			w.nonceReal[name] = nonce
+		}
+		return fmt.Sprintf("200 next=%s nonce=%s", owner, name)
 	})
 }
 
@@ -834,6 +862,8 @@ type c02Gen struct {
 	accepted []c02Op  // requests that were answered 200 (for verbatim replays)
 	lastVPs  []c02VPSpec
 	baseMs   int64
+	sessions []*c02GenSession
+	codes    []c02GenCode
 	forceCreated *int64 // offset of `created` relative to now, when set
 	forceExpires *int64 // validity, when set
 }
@@ -1095,6 +1125,317 @@ func (g *c02Gen) expectedClaims(defs []c02Def, vps []c02VPSpec) []c02ClaimSet {
 		sort.Slice(cs.Claims, func(i, j int) bool { return cs.Claims[i][0] < cs.Claims[j][0] })
 		res = append(res, cs)
 	}
+	return res
+}
+
+type c02GenSession struct {
+	State    string
+	Spec     c02Session
+	Verifier string
+	Nonces   []string // nonces mapped to this state (seeded one first, then server-generated names)
+	Used     bool     // an authorization response has been posted for the newest nonce
+	Scope    string
+}
+
+type c02GenCode struct {
+	Name    string
+	Session *c02GenSession
+	Used    bool
+}
+
+func c02S256(verifier string) string {
+	h := sha256.Sum256([]byte(verifier))
+	return base64.RawURLEncoding.EncodeToString(h[:])
+}
+
+var c02AuthDefects = []string{"missing-state", "unknown-state", "missing-vp_token", "garbage-assertion", "other-tenant", "wrong-challenge",
+	"foreign-challenge", "missing-challenge", "two-challenges", "signer-not-subject", "mixed-subjects", "mixed-vps", "wrong-audience",
+	"verify-fails", "unfulfilled", "foreign-definition", "forged-submission", "missing-submission", "garbage-submission", "stale",
+	"empty-envelope", "empty-vp-between"}
+
+var c02CodeDefects = []string{"missing-code", "bogus-code", "missing-verifier", "wrong-verifier", "missing-client_id", "wrong-client_id",
+	"unknown-subject", "bad-dpop"}
+
+func (g *c02Gen) seed() c02Op {
+	g.seq++
+	pol := g.policy[g.rng.Intn(len(g.policy))]
+	sess := &c02GenSession{State: fmt.Sprintf("st%d", g.seq), Verifier: fmt.Sprintf("verifier-%d-%d", g.seq, g.rng.Intn(1000)), Scope: pol.Scope}
+	sess.Spec = c02Session{ClientID: "https://client.example/oauth2/" + g.pick([]string{"c1", "c2"}), Scope: pol.Scope,
+		OwnSubject: g.pick(g.subjects), Challenge: c02S256(sess.Verifier), Method: "S256", ClientState: fmt.Sprintf("cs%d", g.seq), Required: pol.Defs}
+	switch g.rng.Intn(12) {
+	case 0:
+		sess.Spec.Method = "plain" // not supported by validatePKCEParams
+		sess.Spec.Challenge = sess.Verifier
+	case 1:
+		sess.Spec.Method = ""
+	}
+	nonce := fmt.Sprintf("sn%d", g.seq)
+	sess.Nonces = []string{nonce}
+	g.sessions = append(g.sessions, sess)
+	return c02Op{Op: "seed", State: &sess.State, Nonce: nonce, Session: &sess.Spec}
+}
+
+// authResponse builds a direct_post authorization response for a session from a valid one plus defects
+func (g *c02Gen) authResponse(sess *c02GenSession, defects []string, now int64) c02Op {
+	has := func(x string) bool {
+		for _, y := range defects {
+			if x == y {
+				return true
+			}
+		}
+		return false
+	}
+	subject := sess.Spec.OwnSubject
+	target := sess.Spec.Required[g.rng.Intn(len(sess.Spec.Required))]
+	d := g.defs[target.Key]
+	holder := g.pick(c02Holders)
+	other := c02Holders[0]
+	if other == holder {
+		other = c02Holders[1]
+	}
+	nonce := sess.Nonces[len(sess.Nonces)-1]
+	if g.rng.Intn(6) == 0 {
+		nonce = sess.Nonces[g.rng.Intn(len(sess.Nonces))] // possibly a burned one
+	}
+	mk := func(def c02DefSpec, h string) c02VPSpec {
+		vp := g.baselineVP(subject, def, h, now)
+		// this flow has no maximum validity: also long-lived presentations
+		if g.rng.Intn(3) == 0 {
+			vp.Expires = c02Ptr(*vp.Created + 3600000)
+		}
+		if g.rng.Intn(2) == 0 {
+			vp.Challenge, vp.Nonce = &nonce, nil
+		} else {
+			vp.Nonce = &nonce
+		}
+		return vp
+	}
+	vps := []c02VPSpec{mk(d, holder)}
+	if g.rng.Intn(6) == 0 {
+		vps = append(vps, mk(c02DefSpec{}, holder))
+	}
+	m := &vps[0]
+	expectPex := true
+	if has("other-tenant") {
+		for _, s := range g.subjects {
+			if s != sess.Spec.OwnSubject {
+				subject = s
+			}
+		}
+	}
+	if has("wrong-challenge") {
+		x := "nonce-nobody-issued"
+		m.Challenge, m.Nonce = &x, nil
+	}
+	if has("foreign-challenge") {
+		for _, o := range g.sessions {
+			if o != sess {
+				x := o.Nonces[len(o.Nonces)-1]
+				m.Challenge, m.Nonce = &x, nil
+			}
+		}
+	}
+	if has("missing-challenge") {
+		m.Challenge, m.Nonce = nil, nil
+	}
+	if has("two-challenges") {
+		x := "another-nonce"
+		extra := mk(c02DefSpec{}, holder)
+		extra.Challenge, extra.Nonce = &x, nil
+		vps = append(vps, extra)
+		m = &vps[0]
+	}
+	if has("signer-not-subject") {
+		m.Signer = &other
+	}
+	if has("mixed-subjects") && len(m.Creds) > 0 {
+		m.Creds = append(m.Creds, c02CredSpec{Type: "ExtraCred", Subject: &other, Fields: map[string]interface{}{}})
+	}
+	if has("mixed-vps") || has("empty-vp-between") {
+		if has("empty-vp-between") {
+			vps = append(vps, mk(c02DefSpec{}, other))
+		}
+		vps = append(vps, mk(c02DefSpec{Descriptors: []c02Descriptor{{ID: "x", Type: "OtherCred"}}}, other))
+		m = &vps[0]
+	}
+	if has("wrong-audience") {
+		m.Domain = c02Ptr("https://evil.example/oauth2/" + subject)
+	}
+	if has("verify-fails") {
+		vps[g.rng.Intn(len(vps))].Verifies = false
+	}
+	if has("stale") {
+		m.Created, m.Expires = c02Ptr(now-60000), c02Ptr(now-30000)
+	}
+	if has("unfulfilled") && len(m.Creds) > 0 {
+		m.Creds[0].Type = "WrongType"
+		expectPex = false
+	}
+	multi := len(vps) > 1
+	sub := c02Submission(d, 0, multi, 0)
+	if has("forged-submission") && len(d.Descriptors) > 0 {
+		sub = c02Submission(d, 0, multi, 7)
+		expectPex = false
+	}
+	defID := d.ID
+	if has("foreign-definition") {
+		foreign := "pd-unknown"
+		inSess := map[string]bool{}
+		for _, x := range sess.Spec.Required {
+			inSess[x.ID] = true
+		}
+		for _, x := range g.defs {
+			if !inSess[x.ID] {
+				foreign = x.ID
+			}
+		}
+		sub = strings.Replace(sub, fmt.Sprintf(`"definition_id":%q`, d.ID), fmt.Sprintf(`"definition_id":%q`, foreign), 1)
+		defID = foreign
+	}
+	var env string
+	if multi {
+		var l []string
+		for _, v := range vps {
+			l = append(l, v.json())
+		}
+		env = "[" + strings.Join(l, ",") + "]"
+	} else {
+		env = vps[0].json()
+	}
+	op := c02Op{Op: "authresp", Subject: subject, State: &sess.State, VpToken: true, EnvelopeOK: true, SubmissionPresent: true, SubmissionOK: true,
+		DefID: defID, Defects: defects}
+	if has("missing-state") {
+		op.State = nil
+	}
+	if has("unknown-state") {
+		op.State = c02Ptr("state-nobody-issued")
+	}
+	if has("missing-vp_token") {
+		op.VpToken = false
+	}
+	if has("garbage-assertion") {
+		env = `{"not":"a presentation"`
+		op.EnvelopeOK = false
+		vps = nil
+	}
+	if has("empty-envelope") {
+		env = `[]`
+		vps = nil
+	}
+	if has("missing-submission") {
+		op.SubmissionPresent = false
+	}
+	if has("garbage-submission") {
+		sub = `{"descriptor_map": 5}`
+		op.SubmissionOK = false
+	}
+	for _, v := range vps {
+		op.VPs = append(op.VPs, v.abstract())
+	}
+	if op.VPs == nil {
+		op.VPs = []c02VP{}
+	}
+	op.Assertion, op.Submission = &env, &sub
+	op.Claims = g.expectedClaims(sess.Spec.Required, vps)
+	pexKnown := !has("mixed-subjects") && !has("garbage-assertion") && !has("garbage-submission") && !has("foreign-definition") &&
+		!has("signer-not-subject") && !has("empty-envelope") && !has("missing-state") && !has("unknown-state")
+	if pexKnown {
+		op.PexExpected = &expectPex
+	}
+	return op
+}
+
+func (g *c02Gen) codeRequest(defects []string) c02Op {
+	has := func(x string) bool {
+		for _, y := range defects {
+			if x == y {
+				return true
+			}
+		}
+		return false
+	}
+	op := c02Op{Op: "code", Subject: g.pick(g.subjects), Defects: defects, DPoP: &c02DPoP{Kind: "absent"}}
+	if g.rng.Intn(2) == 0 {
+		op.DPoP = &c02DPoP{Kind: "valid", Idx: g.rng.Intn(3)}
+	}
+	verifier, client, code := "no-verifier", "https://client.example/oauth2/c1", "bogus-code"
+	if len(g.codes) > 0 {
+		c := &g.codes[g.rng.Intn(len(g.codes))]
+		if g.rng.Intn(4) > 0 {
+			for i := range g.codes {
+				if !g.codes[i].Used {
+					c = &g.codes[i]
+				}
+			}
+		}
+		c.Used = true
+		verifier, client, code = c.Session.Verifier, c.Session.Spec.ClientID, c.Name
+	}
+	op.Code, op.Verifier, op.ClientID = &code, &verifier, &client
+	if has("missing-code") {
+		op.Code = nil
+	}
+	if has("bogus-code") {
+		op.Code = c02Ptr("bogus-code")
+	}
+	if has("missing-verifier") {
+		op.Verifier = nil
+	}
+	if has("wrong-verifier") {
+		op.Verifier = c02Ptr(verifier + "x")
+	}
+	if has("missing-client_id") {
+		op.ClientID = nil
+	}
+	if has("wrong-client_id") {
+		op.ClientID = c02Ptr("https://client.example/oauth2/mallory")
+	}
+	if has("unknown-subject") {
+		op.Subject = "ghost"
+	}
+	if has("bad-dpop") {
+		op.DPoP = &c02DPoP{Kind: "invalid"}
+	}
+	if op.Verifier != nil {
+		op.Sha = []c02Sha{{In: *op.Verifier, Out: c02S256(*op.Verifier)}}
+	}
+	return op
+}
+
+func (g *c02Gen) unusedCode() bool {
+	for _, c := range g.codes {
+		if !c.Used {
+			return true
+		}
+	}
+	return false
+}
+
+func (g *c02Gen) subsetOf(pool []string, maxN int) []string {
+	n := 0
+	switch r := g.rng.Intn(100); {
+	case r < 40:
+		n = 0
+	case r < 72:
+		n = 1
+	case r < 90:
+		n = 2
+	default:
+		n = 3
+	}
+	if n > maxN {
+		n = maxN
+	}
+	seen := map[string]bool{}
+	var res []string
+	for len(res) < n {
+		d := pool[g.rng.Intn(len(pool))]
+		if !seen[d] {
+			seen[d] = true
+			res = append(res, d)
+		}
+	}
+	sort.Strings(res)
 	return res
 }
 
@@ -1450,7 +1791,26 @@ func TestVerifC02(t *testing.T) {
 		nOps := 12 + rng.Intn(25)
 		for i := 0; i < nOps; i++ {
 			var op c02Op
-			switch r := rng.Intn(100); {
+			var fresh *c02GenSession
+			for _, sess := range g.sessions {
+				if !sess.Used {
+					fresh = sess
+				}
+			}
+			switch r := rng.Intn(135); {
+			case r >= 100 && fresh == nil && rng.Intn(3) > 0:
+				op = g.seed()
+			case r >= 100 && r < 118 && fresh != nil:
+				op = g.authResponse(fresh, g.subsetOf(c02AuthDefects, 3), w.nowMs())
+				fresh.Used = true
+			case r >= 118 && r < 123 && len(g.sessions) > 0:
+				op = g.authResponse(g.sessions[rng.Intn(len(g.sessions))], g.subsetOf(c02AuthDefects, 2), w.nowMs())
+			case r >= 100 && g.unusedCode() && rng.Intn(2) == 0:
+				op = g.codeRequest(g.subsetOf(c02CodeDefects, 3))
+			case r >= 123 && (len(g.codes) > 0 || rng.Intn(4) == 0):
+				op = g.codeRequest(g.subsetOf(c02CodeDefects, 3))
+			case r >= 100:
+				op = g.seed()
 			case r < 50:
 				op = g.s2sRequest(g.defectSubset(), w.nowMs())
 			case r < 54 && len(g.lastVPs) > 0:
@@ -1483,8 +1843,35 @@ func TestVerifC02(t *testing.T) {
 				if len(g.issued) > 0 && rng.Intn(3) == 0 {
 					op = c02Op{Op: "probe", Store: "token", Key: g.issued[rng.Intn(len(g.issued))]}
 				}
+				if len(g.codes) > 0 && rng.Intn(3) == 0 {
+					op = c02Op{Op: "probe", Store: "code", Key: g.codes[rng.Intn(len(g.codes))].Name}
+				}
+				if len(g.sessions) > 0 && rng.Intn(3) == 0 {
+					sess := g.sessions[rng.Intn(len(g.sessions))]
+					op = c02Op{Op: "probe", Store: "oauthnonce", Key: sess.Nonces[rng.Intn(len(sess.Nonces))]}
+					if rng.Intn(3) == 0 {
+						op = c02Op{Op: "probe", Store: "state", Key: sess.State}
+					}
+				}
 			}
 			line := w.exec(&op)
+			if op.Op == "authresp" && op.State != nil {
+				for _, sess := range g.sessions {
+					if sess.State != *op.State {
+						continue
+					}
+					if strings.HasPrefix(line, "200 code=") {
+						g.codes = append(g.codes, c02GenCode{Name: strings.Fields(line)[1][len("code="):], Session: sess})
+					}
+					if strings.HasPrefix(line, "200 next=") {
+						sess.Nonces = append(sess.Nonces, strings.Fields(line)[2][len("nonce="):])
+						sess.Used = false
+					}
+				}
+			}
+			if op.Op == "code" && strings.HasPrefix(line, "200 token=") {
+				g.issued = append(g.issued, strings.Fields(line)[1][len("token="):])
+			}
 			if op.Op == "s2s" {
 				g.noteNonces(op)
 				if strings.HasPrefix(line, "200 token=") {
@@ -1496,7 +1883,6 @@ func TestVerifC02(t *testing.T) {
 		}
 		w.ctrl.Finish()
 	}
-	_ = sha256.Sum256
 }
 
 
